@@ -10,7 +10,7 @@ RULE = ('Twin worlds: the same session configuration is run by the real Backtest
         'hooks - daily equity samples, delivered fills, allocation rows, and the error (type, message, simulation '
         'time) if the run fails - dated <= T must be bit-identical (float.hex). Configurations: fixed / universe-driven '
         '/ top-N momentum / momentum-sign / SMA-trend / inverse-volatility alpha models, static and dynamic universes '
-        'incl. assets whose data start later, every rebalance kind, both sizers, fees, with and without burn-in; T '
+        'incl. assets whose data start later and markets with blank Open/Close cells (also on the leading rows), every rebalance kind, both sizers, fees, with and without burn-in; T '
         'uniform over the session. A future-read detector tags every data-source read with the simulation time at '
         'which it was made and decodes the source row of the returned value; a read from a later day triggers a directed '
         'twin that rewrites exactly that row. Non-trivial: the two worlds really diverge after T and >= 1 fill is dated '
